@@ -28,6 +28,9 @@ type BlockCtx struct {
 	// block's rejection as a violation (its acceptance is judged by the state oracles).
 	ExpectReject bool
 	RevisedInBlock    map[types.Hash256]bool
+	// Avoid: contracts the pickers skip (set by Merge while it runs its second action: one transaction may touch a
+	// contract only once).
+	Avoid map[types.Hash256]bool
 }
 
 // NewBlockCtx starts a block on the world's tip.
@@ -125,24 +128,7 @@ type Action struct {
 // Seq combines actions into one (all or nothing): same-block interactions without raising the tuple bound K.
 func Seq(name string, acts ...Action) Action {
 	return Action{name, func(bc *BlockCtx) bool {
-		save := *bc
-		save.Used = map[types.Hash256]bool{}
-		for k, v := range bc.Used {
-			save.Used[k] = v
-		}
-		save.RevFC = map[types.FileContractID]types.FileContract{}
-		for k, v := range bc.RevFC {
-			save.RevFC[k] = v
-		}
-		save.RevV2FC = map[types.FileContractID]types.V2FileContract{}
-		for k, v := range bc.RevV2FC {
-			save.RevV2FC[k] = v
-		}
-		save.RevisedInBlock = map[types.Hash256]bool{}
-		for k, v := range bc.RevisedInBlock {
-			save.RevisedInBlock[k] = v
-		}
-		nonce := bc.W.Nonce
+		save, nonce := bc.snapshot()
 		for _, a := range acts {
 			if !a.Do(bc) {
 				*bc = save
@@ -152,6 +138,186 @@ func Seq(name string, acts ...Action) Action {
 		}
 		// present the combination under one name
 		bc.Names = append(save.Names, name)
+		return true
+	}}
+}
+
+// snapshot copies the context (maps deep) so that a composite action can be undone.
+func (bc *BlockCtx) snapshot() (BlockCtx, uint64) {
+	save := *bc
+	save.Used = map[types.Hash256]bool{}
+	for k, v := range bc.Used {
+		save.Used[k] = v
+	}
+	save.RevFC = map[types.FileContractID]types.FileContract{}
+	for k, v := range bc.RevFC {
+		save.RevFC[k] = v
+	}
+	save.RevV2FC = map[types.FileContractID]types.V2FileContract{}
+	for k, v := range bc.RevV2FC {
+		save.RevV2FC[k] = v
+	}
+	save.RevisedInBlock = map[types.Hash256]bool{}
+	for k, v := range bc.RevisedInBlock {
+		save.RevisedInBlock[k] = v
+	}
+	save.V1 = bc.V1[:len(bc.V1):len(bc.V1)]
+	save.V2 = bc.V2[:len(bc.V2):len(bc.V2)]
+	save.Names = bc.Names[:len(bc.Names):len(bc.Names)]
+	return save, bc.W.Nonce
+}
+
+// Merge runs a and then b and replaces their two transactions (same version, one each, b not depending on anything
+// a creates, no contract touched by both) by ONE re-signed transaction carrying both element lists: several inputs,
+// contracts, revisions, resolutions, proofs, attestations inside one transaction. Not applicable otherwise.
+func Merge(a, b Action) Action {
+	return Action{"merge(" + a.Name + " & " + b.Name + ")", func(bc *BlockCtx) bool {
+		save, nonce := bc.snapshot()
+		fail := func() bool {
+			*bc = save
+			bc.W.Nonce = nonce
+			return false
+		}
+		n1, n2 := len(bc.V1), len(bc.V2)
+		if !a.Do(bc) {
+			return fail()
+		}
+		created, touched := map[types.Hash256]bool{}, map[types.Hash256]bool{}
+		switch {
+		case len(bc.V1) == n1+1 && len(bc.V2) == n2:
+			t := bc.V1[n1]
+			created[types.Hash256(t.ID())] = true
+			for i := range t.SiacoinOutputs {
+				created[types.Hash256(t.SiacoinOutputID(i))] = true
+			}
+			for i := range t.SiafundOutputs {
+				created[types.Hash256(t.SiafundOutputID(i))] = true
+			}
+			for i := range t.FileContracts {
+				created[types.Hash256(t.FileContractID(i))] = true
+			}
+			for _, r := range t.FileContractRevisions {
+				touched[types.Hash256(r.ParentID)] = true
+			}
+			for _, p := range t.StorageProofs {
+				touched[types.Hash256(p.ParentID)] = true
+			}
+		case len(bc.V2) == n2+1 && len(bc.V1) == n1:
+			t := bc.V2[n2]
+			id := t.ID()
+			for i := range t.SiacoinOutputs {
+				created[types.Hash256(t.SiacoinOutputID(id, i))] = true
+			}
+			for i := range t.SiafundOutputs {
+				created[types.Hash256(t.SiafundOutputID(id, i))] = true
+			}
+			for i := range t.FileContracts {
+				created[types.Hash256(t.V2FileContractID(id, i))] = true
+			}
+			for _, r := range t.FileContractRevisions {
+				touched[types.Hash256(r.Parent.ID)] = true
+			}
+			for _, r := range t.FileContractResolutions {
+				touched[types.Hash256(r.Parent.ID)] = true
+				created[types.Hash256(r.Parent.ID.V2RenewalID())] = true
+			}
+		default:
+			return fail()
+		}
+		bc.Avoid = touched
+		ok := b.Do(bc)
+		bc.Avoid = nil
+		if !ok {
+			return fail()
+		}
+		dep := func(id types.Hash256) bool { return created[id] || touched[id] }
+		switch {
+		case len(bc.V1) == n1+2 && len(bc.V2) == n2:
+			ta, tb := bc.V1[n1], bc.V1[n1+1]
+			for _, in := range tb.SiacoinInputs {
+				if dep(types.Hash256(in.ParentID)) {
+					return fail()
+				}
+			}
+			for _, in := range tb.SiafundInputs {
+				if dep(types.Hash256(in.ParentID)) {
+					return fail()
+				}
+			}
+			for _, r := range tb.FileContractRevisions {
+				if dep(types.Hash256(r.ParentID)) {
+					return fail()
+				}
+			}
+			for _, p := range tb.StorageProofs {
+				if dep(types.Hash256(p.ParentID)) {
+					return fail()
+				}
+			}
+			// a v1 transaction with storage proofs may carry nothing that creates outputs
+			if (len(ta.StorageProofs) > 0) != (len(tb.StorageProofs) > 0) {
+				return fail()
+			}
+			m := types.Transaction{
+				SiacoinInputs:         append(append([]types.SiacoinInput(nil), ta.SiacoinInputs...), tb.SiacoinInputs...),
+				SiacoinOutputs:        append(append([]types.SiacoinOutput(nil), ta.SiacoinOutputs...), tb.SiacoinOutputs...),
+				FileContracts:         append(append([]types.FileContract(nil), ta.FileContracts...), tb.FileContracts...),
+				FileContractRevisions: append(append([]types.FileContractRevision(nil), ta.FileContractRevisions...), tb.FileContractRevisions...),
+				StorageProofs:         append(append([]types.StorageProof(nil), ta.StorageProofs...), tb.StorageProofs...),
+				SiafundInputs:         append(append([]types.SiafundInput(nil), ta.SiafundInputs...), tb.SiafundInputs...),
+				SiafundOutputs:        append(append([]types.SiafundOutput(nil), ta.SiafundOutputs...), tb.SiafundOutputs...),
+				MinerFees:             append(append([]types.Currency(nil), ta.MinerFees...), tb.MinerFees...),
+				ArbitraryData:         append(append([][]byte(nil), ta.ArbitraryData...), tb.ArbitraryData...),
+			}
+			bc.W.SignV1Whole(&m)
+			bc.V1 = append(bc.V1[:n1:n1], m)
+		case len(bc.V2) == n2+2 && len(bc.V1) == n1:
+			ta, tb := bc.V2[n2], bc.V2[n2+1]
+			for _, in := range tb.SiacoinInputs {
+				if dep(types.Hash256(in.Parent.ID)) {
+					return fail()
+				}
+			}
+			for _, in := range tb.SiafundInputs {
+				if dep(types.Hash256(in.Parent.ID)) {
+					return fail()
+				}
+			}
+			for _, r := range tb.FileContractRevisions {
+				if dep(types.Hash256(r.Parent.ID)) {
+					return fail()
+				}
+			}
+			for _, r := range tb.FileContractResolutions {
+				if dep(types.Hash256(r.Parent.ID)) {
+					return fail()
+				}
+			}
+			if ta.NewFoundationAddress != nil && tb.NewFoundationAddress != nil {
+				return fail()
+			}
+			m := types.V2Transaction{
+				SiacoinInputs:           append(append([]types.V2SiacoinInput(nil), ta.SiacoinInputs...), tb.SiacoinInputs...),
+				SiacoinOutputs:          append(append([]types.SiacoinOutput(nil), ta.SiacoinOutputs...), tb.SiacoinOutputs...),
+				SiafundInputs:           append(append([]types.V2SiafundInput(nil), ta.SiafundInputs...), tb.SiafundInputs...),
+				SiafundOutputs:          append(append([]types.SiafundOutput(nil), ta.SiafundOutputs...), tb.SiafundOutputs...),
+				FileContracts:           append(append([]types.V2FileContract(nil), ta.FileContracts...), tb.FileContracts...),
+				FileContractRevisions:   append(append([]types.V2FileContractRevision(nil), ta.FileContractRevisions...), tb.FileContractRevisions...),
+				FileContractResolutions: append(append([]types.V2FileContractResolution(nil), ta.FileContractResolutions...), tb.FileContractResolutions...),
+				Attestations:            append(append([]types.Attestation(nil), ta.Attestations...), tb.Attestations...),
+				ArbitraryData:           append(append([]byte(nil), ta.ArbitraryData...), tb.ArbitraryData...),
+				NewFoundationAddress:    ta.NewFoundationAddress,
+				MinerFee:                ta.MinerFee.Add(tb.MinerFee),
+			}
+			if m.NewFoundationAddress == nil {
+				m.NewFoundationAddress = tb.NewFoundationAddress
+			}
+			bc.W.SignV2(&m)
+			bc.V2 = append(bc.V2[:n2:n2], m)
+		default:
+			return fail()
+		}
+		bc.Names = append(save.Names, "merge("+a.Name+" & "+b.Name+")")
 		return true
 	}}
 }
@@ -276,6 +442,9 @@ func v1form(bc *BlockCtx, ws, we, F uint64, salt int) bool {
 		}
 		w := bc.W
 		payout := types.Siacoins(200).Add(types.NewCurrency64(12345))
+		if salt > 0 {
+			payout = payout.Add(types.Siacoins(uint32(10 * (salt % 9)))) // salted contracts also differ in their amounts
+		}
 		p, ok := bc.PickSC(func(c int) bool { return c == AddrV1 || c == AddrV1b }, payout.Add(Fee))
 		if !ok {
 			return false
@@ -312,7 +481,7 @@ func v1form(bc *BlockCtx, ws, we, F uint64, salt int) bool {
 func (bc *BlockCtx) pickFC(ok func(fc types.FileContract) bool) (types.FileContractElement, types.FileContract, bool) {
 	w := bc.W
 	for _, e := range w.Ref.Live(KFC) {
-		if bc.Used[e.ID] {
+		if bc.Used[e.ID] || bc.Avoid[e.ID] {
 			continue
 		}
 		fce, found := w.Store.FC[types.FileContractID(e.ID)]
@@ -741,6 +910,11 @@ func v2form(bc *BlockCtx, ph, eh, F uint64, salt int) bool {
 		}
 		w := bc.W
 		fc := w.NewV2Contract(ph, 0, eh-ph, F)
+		if salt > 0 { // salted contracts also differ in their amounts
+			fc.RenterOutput.Value = fc.RenterOutput.Value.Add(types.Siacoins(uint32(10 * (salt % 9))))
+			fc.HostOutput.Value = fc.HostOutput.Value.Add(types.Siacoins(uint32(3 * (salt % 9))))
+			fc.MissedHostValue = fc.MissedHostValue.Add(types.Siacoins(uint32(salt % 9)))
+		}
 		cost := fc.RenterOutput.Value.Add(fc.HostOutput.Value).Add(cur(RefTaxV2(fc)))
 		p, ok := bc.PickSC(func(c int) bool { return c == AddrV2 || c == AddrACS || c == AddrV1 }, cost.Add(Fee))
 		if !ok {
@@ -764,7 +938,7 @@ func v2form(bc *BlockCtx, ph, eh, F uint64, salt int) bool {
 func (bc *BlockCtx) pickV2FC(ok func(fc types.V2FileContract) bool) (types.V2FileContractElement, types.V2FileContract, bool) {
 	w := bc.W
 	for _, e := range w.Ref.Live(KV2FC) {
-		if bc.Used[e.ID] {
+		if bc.Used[e.ID] || bc.Avoid[e.ID] {
 			continue
 		}
 		fce, found := w.Store.V2FC[types.FileContractID(e.ID)]
